@@ -99,6 +99,12 @@ def interpret(calls, basics):
                     problems.append("MPI_Type_vector with blocklength %r" % bl)
                 types[out] = Ty([(c, st * t.extent)] + t.levels, (c - 1) * st * t.extent + t.extent)
                 created.append(out)
+        elif callee == "MPI_Type_contiguous":
+            c, old = vals[0], vals[1]
+            t = use(old, callee)
+            if t is not None:
+                types[out] = Ty([(c, t.extent)] + t.levels, c * t.extent)
+                created.append(out)
         elif callee == "MPI_Type_create_hvector":
             c, bl, st, old = vals[0], vals[1], vals[2], vals[3]
             t = use(old, callee)
@@ -157,7 +163,7 @@ def run(tier):
     funcs, structs = irval.parse_module(text)
     ev = irval.Evaluator(funcs, structs)
     rep.units.add("mpi.cpp")
-    MPI = ("MPI_Type_size", "MPI_Type_dup", "MPI_Type_vector", "MPI_Type_create_hvector", "MPI_Type_create_resized", "MPI_Type_commit", "MPI_Type_free", "sink")
+    MPI = ("MPI_Type_size", "MPI_Type_dup", "MPI_Type_vector", "MPI_Type_contiguous", "MPI_Type_create_hvector", "MPI_Type_create_resized", "MPI_Type_commit", "MPI_Type_free", "sink")
     ev.record_external = lambda c: c in MPI
     outs = {}
 
@@ -169,6 +175,10 @@ def run(tier):
             h = irval.atom("handle", k)
             outs[k] = h
             return [(vals[1], h)]
+        if callee == "MPI_Type_contiguous":
+            h = irval.atom("handle", k)
+            outs[k] = h
+            return [(vals[2], h)]
         if callee in ("MPI_Type_vector", "MPI_Type_create_hvector"):
             h = irval.atom("handle", k)
             outs[k] = h
@@ -194,10 +204,16 @@ def run(tier):
         if tier == "thorough":
             import itertools
             size_classes = list(itertools.product(("1", ">"), repeat=D))
-        for cls in size_classes:
+        import itertools as _it
+        # every stride is 1 or >= 2 (a unit stride is the natural special case of a type constructor); thorough additionally splits the sizes
+        for cls, scls in _it.product(size_classes, list(_it.product(("1", ">"), repeat=D))):
             env, signs = {}, {"base": POS, "__distinct": {"@ompi_mpi_datatype_null", "@ompi_mpi_double"}}
             for k in range(D):
-                signs["s%d" % k] = POS
+                if scls[k] == "1":
+                    env["s%d" % k] = P.const(1)
+                else:
+                    env["s%d" % k] = 2 + A("q%d" % k)
+                    signs["q%d" % k] = NONNEG
                 if cls[k] == ">":
                     env["z%d" % k] = 2 + A("t%d" % k)
                     signs["t%d" % k] = NONNEG
@@ -206,8 +222,9 @@ def run(tier):
             args = [A("base")]
             for k in range(D):
                 z = A("z%d" % k).subst(env)
-                args += [A("s%d" % k), P.const(0), z * A("s%d" % k)]
-            tag = "%s,D=%d%s" % (what, D, ("," + "".join(cls)) if tier == "thorough" else "")
+                sk = A("s%d" % k).subst(env)
+                args += [sk, P.const(0), z * sk]
+            tag = "%s,D=%d,strides %s%s" % (what, D, "".join(scls), (",sizes " + "".join(cls)) if tier == "thorough" else "")
             outs.clear()
             n += 1
             try:
@@ -233,7 +250,7 @@ def run(tier):
                 continue
             buf, count, ty, h = sunk
             got = norm([(count, ty.extent)] + ty.levels)
-            want = norm([(A("z%d" % k).subst(env), A("s%d" % k) * ESZ) for k in range(D)])
+            want = norm([(A("z%d" % k).subst(env), A("s%d" % k).subst(env) * ESZ) for k in range(D)])
             if fn.startswith("data_"):
                 want = []         # data(it) with count 1 denotes the one element the iterator designates
             bad = []
@@ -246,6 +263,32 @@ def run(tier):
             else:
                 rep.ok(key, "M18.map", dict(levels=repr(got)))
                 rep.sample(dict(obligation=key, levels=repr(got)))
+    # assertion-enabled build: a message of an array without elements (no storage: null base, count 0) is built without reaching an assertion
+    try:
+        text2 = irval.emit_ir(src, src[:-4] + "_dbg.ll", defines=tuple(["-UNDEBUG", "-fno-vectorize", "-fno-slp-vectorize", "-mllvm", "-inline-threshold=1000000"] + inc))
+        ev2 = irval.Evaluator(*irval.parse_module(text2))
+        ev2.record_external = ev.record_external
+        ev2.external_model = model
+        for D in (1, 2):
+            key = "M18.silent(message(v.elements()) of an array without elements,D=%d)" % D
+            args = [P.const(0)]
+            for k in range(D):
+                args += [P.const(1) if k == D - 1 else A("z1"), P.const(0), P.const(0)]
+            outs.clear()
+            n += 1
+            try:
+                ev2.run("msg_%d" % D, args, {"z1": POS, "__distinct": {"@ompi_mpi_datatype_null", "@ompi_mpi_double"}})
+                sunk = [c for c in ev2.extcalls if c[0] == "sink"]
+                if len(sunk) == 1 and sunk[0][1][1] == P.const(0):
+                    rep.ok(key, "M18.silent", None)
+                else:
+                    rep.violated(key, "M18.silent", "the message of an empty array does not have count 0: %r" % [c[1][1] for c in sunk], dict())
+            except irval.AssertFires as e:
+                rep.violated(key, "M18.silent", "building the message of an array without elements reaches an assertion: %s" % str(e)[:200], dict())
+            except irval.Inconclusive as e:
+                rep.inconclusive(key, "M18.silent", str(e))
+    except common.AnalysisBroken as e:
+        rep.break_("M18.silent: the driver does not compile with assertions enabled: %s" % str(e)[:200])
     rep.need_instances("M18 constructor cases evaluated", n, 8)
     rep.explanation = ("The adaptor's message / data / create_subarray constructors are evaluated symbolically on an arbitrary view (positive strides, sizes >= 1); the "
                        "sequence of MPI_Type_* calls is interpreted in the type-map algebra of the MPI standard and compared, as lists of (count, byte stride) loop "
